@@ -377,9 +377,11 @@ def gen_rnd_board(sp, L, W, m, fd):
     gen.random, gen.math = rs, ms
     seeds = [sp.int("seed", 0, None)]
     p = sp.real("prob_loose", 0, 1, lo_open=True, hi_open=True)
+    runs = [(seeds[0], L, W)]
     if sp.mode == "native":
-        seeds += list(range(0, 40))       # the contract run cannot be replayed bit for bit: try the real PRNG on several seeds
-    for seed in seeds:
+        # the contract run cannot be replayed bit for bit: try the real PRNG on several seeds and on a large board
+        runs += [(s, L, W) for s in range(0, 40)] + [(s, 30, 30) for s in (seeds[0], 1, 2, 3, 4, 5)]
+    for seed, L, W in runs:
         ms.power_of_two(m + 1)
         moves, rewards, loose = gen.gen_rnd_board(seed, L, W, p, m, fd)
         draws = list(rs.draws)
@@ -416,3 +418,10 @@ def gen_rnd_board(sp, L, W, m, fd):
         for i in range(L):
             for j in range(W):
                 sp.prove(rewards2[i][j] == rewards[i][j], "same seed and parameters give different rewards")
+        # a later call with the other force-down setting honours it (no state carried between calls)
+        if L * W <= 2 and m <= 2 or sp.mode == "native":
+            moves3, _, _ = gen.gen_rnd_board(seed, L, W, p, m, not fd)
+            for i in range(L):
+                sp.prove((3 in moves3[i]) == (not fd), "a call following one with the other force-down setting ignores its own setting")
+            moves4, rewards4, loose4 = gen.gen_rnd_board(seed, L, W, p, m, fd)
+            sp.prove(moves4 == moves and loose4 == loose, "board depends on earlier calls with other parameters")
